@@ -40,14 +40,9 @@ theorem sendPhase_none_keeps (s : St) (hr : s.chan = .ready) (hu : s.stream = .u
       · unfold replicaSend replicaLog
         dsimp only
         rw [if_neg (by rw [hu]; simp)]
-        rw [if_neg (by intro e; cases e)]
-        split
-        · split
-          · rw [(hag _ _).1, (hag _ _).2]; exact ⟨hr, hu⟩
-          · exact ⟨hr, hu⟩
-        · split
-          · rw [(hag _ _).1, (hag _ _).2]; exact ⟨hr, hu⟩
-          · exact ⟨hr, hu⟩
+        simp only [show decide (Fault.none = Fault.put) = false from by decide, Bool.false_eq_true, if_false, reduceCtorEq]
+        repeat' split
+        all_goals (first | exact ⟨hr, hu⟩ | (rw [(hag _ _).1, (hag _ _).2]; exact ⟨hr, hu⟩))
   · dsimp only
     split
     · exact ⟨hr, hu⟩
@@ -261,7 +256,7 @@ theorem replicaStep_none_progress (cfg : Cfg) (s : St) (h : InvA s) (hst : s.sto
       unfold replicaSend replicaLog
       dsimp only
       rw [if_neg hup, if_neg (by omega : ¬ s.cons + 1 ≠ s.F.app + 1)]
-      dsimp only
+      simp only [show decide (Fault.none = Fault.put) = false from by decide, Bool.false_eq_true, if_false]
       rw [if_neg (show ¬ Fault.none = Fault.recv by intro e; cases e), if_pos (by omega : s.F.app + 1 = s.cons + 1)]
       unfold ackGroup
       dsimp only
